@@ -65,6 +65,14 @@ Check C39_batching_irrelevant :
     (match s with SInsert _ _ => False | _ => True end) -> stmt_ok s ->
     rows_of t1 = rows_of t2 ->
     rows_of (fst (step n t1 s)) = rows_of (fst (step n t2 s)) /\ snd (step n t1 s) = snd (step n t2 s).
+Check C39_constant_where_selects_no_row :
+  forall w, folds_away w = true -> forall r, holds w r = false.
+Check C39_upstream_constant_where_refuted :
+  exists t w,
+    (forall r, holds w r = false) /\ rows_of t <> [] /\
+    rows_of (fst (step_upstream 3 t (SDelete w))) = [] /\
+    snd (step_upstream 3 t (SDelete w)) = zlen (rows_of t) /\
+    snd (step_upstream 3 t (SUpdate [(0%nat, ILit 9)] w)) = zlen (rows_of t).
 Print Assumptions C39_delete_spec.
 Print Assumptions C39_update_spec.
 Print Assumptions C39_update_sees_pre_update_row.
@@ -74,4 +82,6 @@ Print Assumptions C39_counts_exact.
 Print Assumptions C39_history_refines_reference.
 Print Assumptions C39_history_without_insert_in_order.
 Print Assumptions C39_batching_irrelevant.
+Print Assumptions C39_constant_where_selects_no_row.
+Print Assumptions C39_upstream_constant_where_refuted.
 Print Assumptions C39_nonvacuous_swap.
